@@ -60,6 +60,7 @@ const (
 	c31KeyDropRep   = "C31/drops/dropped-bytes-not-reported-upstream"
 	c31KeyStats     = "C31/accounting/stats-differ-from-per-packet-outcomes"
 	c31KeyNoAddr    = "C31/delay/accepted-into-sender-that-has-no-upstream-address"
+	c31KeyHang      = "C31/delay/hung-upstream-write-never-times-out"
 )
 
 // ---------------------------------------------------------------- packets
@@ -154,6 +155,42 @@ func c31Listen(env *c31Env, addr string, closeAfter []int, stalled bool) (*c31Up
 	}
 	u := &c31Up{env: env, ln: ln, addr: ln.Addr().String(), closeAfter: closeAfter}
 	u.stalled.Store(stalled)
+	u.wg.Add(1)
+	go u.acceptLoop()
+	return u, nil
+}
+
+// c31Reserve binds a loopback port without listening on it: connects are refused, and no
+// other process can take the port until c31ListenFD turns the same socket into a listener.
+func c31Reserve() (fd int, addr string, err error) {
+	fd, err = syscall.Socket(syscall.AF_INET, syscall.SOCK_STREAM|syscall.SOCK_CLOEXEC, 0)
+	if err != nil {
+		return -1, "", err
+	}
+	if err = syscall.Bind(fd, &syscall.SockaddrInet4{Addr: [4]byte{127, 0, 0, 1}}); err != nil {
+		_ = syscall.Close(fd)
+		return -1, "", err
+	}
+	sa, err := syscall.Getsockname(fd)
+	if err != nil {
+		_ = syscall.Close(fd)
+		return -1, "", err
+	}
+	return fd, fmt.Sprintf("127.0.0.1:%d", sa.(*syscall.SockaddrInet4).Port), nil
+}
+
+func c31ListenFD(env *c31Env, fd int) (*c31Up, error) {
+	if err := syscall.Listen(fd, 128); err != nil {
+		_ = syscall.Close(fd)
+		return nil, err
+	}
+	f := os.NewFile(uintptr(fd), "c31-upstream")
+	ln, err := net.FileListener(f)
+	_ = f.Close()
+	if err != nil {
+		return nil, err
+	}
+	u := &c31Up{env: env, ln: ln, addr: ln.Addr().String()}
 	u.wg.Add(1)
 	go u.acceptLoop()
 	return u, nil
@@ -433,6 +470,11 @@ func (v *c31Env) push(id uint64, size int, scratch []byte) *c31Pkt {
 		v.statsSwapped = true
 		v.nUnknown++
 		v.r.NotJudged("outcome_unknown_stats_swapped_during_call", 1)
+	case v.sc.realHandler && (f0 <= 1 || d0 <= 1):
+		// a Stats() swap by the handler's 30-s report loop between the two reads can hide an increment
+		// when the counter was 0 or 1; only handlers without that loop judge this case
+		v.nUnknown++
+		v.r.NotJudged("outcome_ambiguous_next_to_a_possible_stats_swap", 1)
 	default:
 		v.viol(c31KeyAccount, fmt.Sprintf("offering packet %d changed forwarded by %d and dropped by %d (exactly one of them must grow by 1)", id, f1-f0, d1-d0), map[string]any{"packet": id})
 	}
@@ -586,7 +628,7 @@ func (v *c31Env) quiesce() {
 	}
 	// the bound is 15 s of wall clock AND at least 500 polls of 20 ms by this very loop: on a
 	// machine so loaded that the harness itself is not scheduled the clock alone proves nothing
-	for polls := 0; !(v.allDelivered() && v.reportsComplete()) && (time.Now().Before(deadline()) || polls < 500); polls++ {
+	for polls := 0; !(v.allDelivered() && v.reportsComplete()) && (time.Now().Before(deadline()) || polls < 400); polls++ {
 		time.Sleep(20 * time.Millisecond)
 	}
 	stuck := v.stuckNow()
@@ -599,11 +641,14 @@ func (v *c31Env) quiesce() {
 	// everything forwarded, the senders were asleep in pktBuffer.swap past the batch timeout.
 	v.wakeSenders()
 	t1 := time.Now().Add(c31DelayMax)
-	for polls := 0; !(v.allDelivered() && v.reportsComplete()) && (time.Now().Before(t1) || polls < 500); polls++ {
+	for polls := 0; !(v.allDelivered() && v.reportsComplete()) && (time.Now().Before(t1) || polls < 400); polls++ {
 		time.Sleep(20 * time.Millisecond)
 		v.wakeSenders()
 		if polls >= 150 && v.ownedBySenderWithoutAddress(v.stuckNow()) {
 			break // structural evidence: nothing can ever leave that buffer
+		}
+		if polls >= 150 && v.sc.Kind == "upstream-hang-failover" && v.e.stats.writeErrors.Load() == 0 {
+			break // the senders sit in a write that has no deadline: a wake-up cannot reach them
 		}
 	}
 	still := v.stuckNow()
@@ -622,10 +667,21 @@ func (v *c31Env) quiesce() {
 			v.explained[id] = true
 		}
 		v.viol(c31KeyNoAddr, fmt.Sprintf("%d accepted packet(s) sit in the buffer of the sender that has no upstream address and were not forwarded well after traffic stopped (15 s, then woken)", len(still)), extra)
+	case len(stuck) > 0 && v.sc.Kind == "upstream-hang-failover" && v.e.stats.writeErrors.Load() == 0:
+		for _, id := range stuck {
+			v.explained[id] = true
+		}
+		if !repOK {
+			repOK = true // the pending write_err report sits behind the same blocked write: one root cause, one finding
+			v.r.NotJudged("drop_report_pending_behind_a_write_that_never_times_out", 1)
+		}
+		v.viol(c31KeyHang, fmt.Sprintf("%d accepted packet(s) are still buffered 15 s (2.5 x the configured write timeout of %v) after the upstreams holding the connections stopped reading; no write error was counted, so the senders never left the blocked write although each has a healthy second address", len(stuck), v.e.cfg.WriteTimeout), extra)
 	case len(stuck) > 0:
 		v.viol(c31KeyStuck, fmt.Sprintf("%d accepted packet(s) not forwarded 15 s after the last packet, %d still not after waking the senders", len(stuck), len(still)), extra)
 	}
-	if !repOK {
+	if !repOK && v.e.stats.writeErrors.Load() > 0 {
+		v.r.NotJudged("drop_report_possibly_lost_with_a_failed_connection", 1)
+	} else if !repOK {
 		if v.reportsComplete() {
 			v.r.Count("drops.report_released_by_wakeup", 1)
 			v.viol(c31KeyTimer, fmt.Sprintf("%d dropped bytes were counted but only %d reported upstream 15 s after traffic stopped; a bare Broadcast on the buffer's condition variable got the report sent: the batch timer had expired without waking the sender", v.droppedB, extra["reported_bytes_at_15s_or_later"]), extra)
@@ -633,6 +689,29 @@ func (v *c31Env) quiesce() {
 			v.viol(c31KeyDropRep, fmt.Sprintf("%d dropped bytes counted, %d reported upstream even after waking the senders", v.droppedB, v.reported.Load()), extra)
 		}
 	}
+}
+
+// senderConns groups the accepted connections by the sender whose address pool contains the
+// listener's address, ordered by accept time.
+func (v *c31Env) senderConns() [][]*c31Conn {
+	var out [][]*c31Conn
+	for _, s := range []*tcpSender{v.e.pool.primary, v.e.pool.secondary} {
+		s.poolMu.Lock()
+		addrs := append([]string(nil), s.pool.addrs...)
+		s.poolMu.Unlock()
+		var cs []*c31Conn
+		for _, u := range v.ups {
+			for _, a := range addrs {
+				if a == u.addr {
+					cs = append(cs, u.conns...)
+					break
+				}
+			}
+		}
+		sort.Slice(cs, func(i, j int) bool { return cs[i].accepted.Before(cs[j].accepted) })
+		out = append(out, cs)
+	}
+	return out
 }
 
 // ---------------------------------------------------------------- final oracle
@@ -719,13 +798,16 @@ func (v *c31Env) judge() {
 				}
 			}
 		}
-		// connection boundaries of this upstream address: one sender dials one address, so the
-		// connections of one listener are the successive connections of one sender
-		if v.single && sc.boundaryRules {
+	}
+	// connection boundaries per sender: a sender has one connection at a time and dials only the
+	// addresses of its own pool (no DNS reshuffle and no stuck-reconnect in these scenarios), so the
+	// connections accepted by the listeners of its pool, ordered by accept time, are its successive connections
+	if v.single && sc.boundaryRules {
+		for _, snd := range v.senderConns() {
 			lastPos := -1 // acceptance position of the last frame this sender got through so far
 			open := false // a boundary was passed and no frame has arrived after it yet
-			for ci, c := range u.conns {
-				if c.idx > 0 {
+			for ci, c := range snd {
+				if ci > 0 {
 					boundaries++
 					open = true
 				}
@@ -735,11 +817,11 @@ func (v *c31Env) judge() {
 						ivs = append(ivs, [2]int{lastPos, first})
 					}
 					open = false
-					if l, ok := pos[c.frames[len(c.frames)-1].id]; ok {
+					if l, ok := pos[c.frames[len(c.frames)-1].id]; ok && l > lastPos {
 						lastPos = l
 					}
 				}
-				if c.byUp && ci == len(u.conns)-1 {
+				if c.byUp && ci == len(snd)-1 {
 					open = true // cut by the upstream and never replaced: whatever was written after the last frame is gone
 				}
 			}
@@ -866,21 +948,25 @@ func c31RunScenario(r *verifkit.Run, sc *c31Scenario) {
 	v.explained = map[uint64]bool{}
 	v.block = c31Block(v.scn)
 	var addrs []string
-	var reserved []string
+	var reserved []int
 	for i := 0; i < sc.nAddr; i++ {
+		if sc.lateStart {
+			fd, a, err := c31Reserve() // bound, not listening: the balancer's dials are refused for now
+			if err != nil {
+				r.Inconclusive("C31: cannot reserve a port: " + err.Error())
+				return
+			}
+			reserved = append(reserved, fd)
+			addrs = append(addrs, a)
+			continue
+		}
 		u, err := c31Listen(v, "127.0.0.1:0", sc.closeAfter, sc.stall)
 		if err != nil {
 			r.Inconclusive("C31: cannot listen: " + err.Error())
 			return
 		}
 		addrs = append(addrs, u.addr)
-		if sc.lateStart {
-			reserved = append(reserved, u.addr)
-			_ = u.ln.Close() // the port is free again: the balancer's dials are refused until we listen again
-			u.wg.Wait()
-		} else {
-			v.ups = append(v.ups, u)
-		}
+		v.ups = append(v.ups, u)
 	}
 	cfg := sc.cfg
 	cfg.Network = "tcp"
@@ -904,16 +990,16 @@ func c31RunScenario(r *verifkit.Run, sc *c31Scenario) {
 	sc.run(v)
 	if sc.lateStart {
 		ok := true
-		for _, a := range reserved {
-			u, err := c31Listen(v, a, nil, false)
+		for _, fd := range reserved {
+			u, err := c31ListenFD(v, fd)
 			if err != nil {
 				ok = false
-				break
+				continue
 			}
 			v.ups = append(v.ups, u)
 		}
 		if !ok {
-			r.NotJudged("scenario_skipped_port_taken_by_another_process", 1)
+			r.Inconclusive("C31: listen on a reserved port failed")
 			v.h.Close()
 			_ = v.e.Close()
 			for _, u := range v.ups {
@@ -941,8 +1027,8 @@ func c31RunScenario(r *verifkit.Run, sc *c31Scenario) {
 	switch sc.Kind {
 	case "stall-overflow", "single-address-overflow":
 		nontrivial = nontrivial && v.nDropped > 0
-	case "stall-timeout":
-		nontrivial = nontrivial && v.stats.WriteErrors > 0
+	case "upstream-hang-failover":
+		nontrivial = nontrivial && v.nDropped > 0
 	case "upstream-close":
 		cut := 0
 		for _, u := range v.ups {
@@ -1015,7 +1101,7 @@ func c31Sizes(rnd *rand.Rand, class string) int {
 
 func c31Scenarios(r *verifkit.Run) []*c31Scenario {
 	rnd := r.Rand("scenarios")
-	kinds := []string{"lone-after-idle", "pair", "small-burst", "burst-with-tail", "sparse-fast", "sparse-slow", "multi-producer", "edge-sizes", "upstream-close", "stall-overflow", "late-upstream", "burst-with-tail", "pair", "stall-overflow", "upstream-close", "stall-timeout", "small-burst", "edge-sizes", "multi-producer", "single-address-overflow"}
+	kinds := []string{"lone-after-idle", "pair", "small-burst", "burst-with-tail", "sparse-fast", "sparse-slow", "multi-producer", "edge-sizes", "upstream-close", "stall-overflow", "late-upstream", "burst-with-tail", "pair", "stall-overflow", "upstream-close", "upstream-hang-failover", "small-burst", "edge-sizes", "multi-producer", "single-address-overflow"}
 	n := r.N(20, 240)
 	var out []*c31Scenario
 	for i := 0; i < n; i++ {
@@ -1129,44 +1215,61 @@ func c31Scenarios(r *verifkit.Run) []*c31Scenario {
 					}
 				}
 			}
-		case "stall-timeout":
-			// the upstream stops reading for longer than the write timeout: the balancer's write fails
-			// with a deadline error (possibly inside a frame), it reconnects and goes on with the next packet
+		case "upstream-hang-failover":
+			// each sender gets two upstream addresses.  The upstreams that hold the live connections stop
+			// reading for good (a hung peer): the write timeout must end the blocked write so that the
+			// sender reconnects to the next address of its pool, where everything is healthy.
+			// Driven by state: push until drops show that both senders are blocked (or a write error is
+			// already counted); the delay clause then judges what is still buffered.
 			sc.faultFree = false
 			sc.boundaryRules = true
+			sc.nAddr = 4
 			sc.cfg.DNSRefreshInterval = time.Hour // a refresh reshuffles which sender dials which listener
-			sc.cfg.WriteTimeout = 3 * time.Second
+			sc.cfg.WriteTimeout = 6 * time.Second
 			sc.cfg.ReconnectDelay = 100 * time.Millisecond
 			sc.cfg.StuckReconDelay = time.Hour
-			stallFor := time.Duration(5500+rnd.IntN(2000)) * time.Millisecond
-			sc.Params = fmt.Sprintf("write_timeout=3s stall=%v", stallFor)
+			sc.wantDrops = 3 + rnd.IntN(10)
+			warm := 50 + rnd.IntN(100)
+			sc.Params = fmt.Sprintf("write_timeout=6s warm=%d then hang until drops>=%d", warm, sc.wantDrops)
 			sc.run = func(v *c31Env) {
 				pr, buf := mk()
-				t0 := time.Now()
-				stalled, resumed := false, false
 				id := uint64(0)
-				for time.Since(t0) < stallFor+2500*time.Millisecond && id < 60000 {
-					el := time.Since(t0)
-					if !stalled && el > 700*time.Millisecond {
-						stalled = true
-						for _, u := range v.ups {
-							u.stalled.Store(true)
-						}
+				for i := 0; i < warm; i++ {
+					id++
+					v.push(id, c31Sizes(pr, ""), buf)
+					if i%10 == 0 {
+						time.Sleep(2 * time.Millisecond)
 					}
-					if !resumed && el > 700*time.Millisecond+stallFor {
-						resumed = true
-						for _, u := range v.ups {
-							u.stalled.Store(false)
-						}
-					}
-					for k := 0; k < 20; k++ {
-						id++
-						v.push(id, c31Sizes(pr, "big"), buf)
-					}
-					time.Sleep(10 * time.Millisecond)
 				}
+				// let the warm-up through (a tail below the batch threshold may stay behind: that is 7-j, judged at the end)
+				for t0 := time.Now(); len(v.undelivered()) > bufferLen*20/100 && time.Since(t0) < 30*time.Second; {
+					time.Sleep(20 * time.Millisecond)
+				}
+				hung := 0
 				for _, u := range v.ups {
-					u.stalled.Store(false)
+					u.mu.Lock()
+					live := 0
+					for _, c := range u.conns {
+						if !c.ended {
+							live++
+						}
+					}
+					u.mu.Unlock()
+					if live > 0 {
+						u.stalled.Store(true)
+						hung++
+					}
+				}
+				v.r.Count("hang.listeners_hung", int64(hung))
+				for n := 0; n < 4000; n++ {
+					id++
+					v.push(id, c31Sizes(pr, "big"), buf)
+					v.mu.Lock()
+					d := v.nDropped
+					v.mu.Unlock()
+					if d >= sc.wantDrops || n >= 800 && v.e.stats.writeErrors.Load() > 0 {
+						break
+					}
 				}
 			}
 		case "upstream-close":
@@ -1256,6 +1359,15 @@ func TestVerifC31(t *testing.T) {
 	_ = receiver.TCPPrefix
 	_ = io.EOF
 	scs := c31Scenarios(r)
+	if only := os.Getenv("VERIF_C31_ONLY"); only != "" { // experiments only
+		var keep []*c31Scenario
+		for _, sc := range scs {
+			if sc.Kind == only {
+				keep = append(keep, sc)
+			}
+		}
+		scs = keep
+	}
 	conc := 24
 	if x, err := strconv.Atoi(os.Getenv("VERIF_C31_CONC")); err == nil && x > 0 {
 		conc = x // experiments only; the scenario list does not depend on it
